@@ -108,6 +108,17 @@ impl PartialEq for Item {
     }
 }
 impl Eq for Item {}
+/// (only so that `Iterator::min` / `max` / `cmp` can be called on the crate's iterators, whose Item is a pair)
+impl PartialOrd for Item {
+    fn partial_cmp(&self, o: &Item) -> Option<Ordering> {
+        Some(self.cmp(o))
+    }
+}
+impl Ord for Item {
+    fn cmp(&self, o: &Item) -> Ordering {
+        self.key.cmp(&o.key)
+    }
+}
 impl Hash for Item {
     fn hash<H: Hasher>(&self, state: &mut H) {
         tick(&FUEL_HASH, "Hash");
